@@ -11,6 +11,10 @@ type (
 	RWMutex   = simrt.RWMutex
 	WaitGroup = simrt.WaitGroup
 	Once      = simrt.Once
+	Cond      = simrt.Cond
 	Pool      = real.Pool
 	Locker    = real.Locker
+	Map       = real.Map
 )
+
+func NewCond(l Locker) *Cond { return simrt.NewCond(l) }
